@@ -193,6 +193,10 @@ func (p *PsUnpacker) FeedRtpBody(rtpBody []byte, rtpts uint32) error {
 	for p.buf.Len() != 0 {
 		rb := p.buf.Bytes()
 		i := 0
+		if len(rb) < 4 {
+			// 不足一个start code，等待后续数据
+			return nil
+		}
 		code := bele.BeUint32(rb[i:])
 		i += 4
 
@@ -344,6 +348,10 @@ func (p *PsUnpacker) parsePsm(rb []byte, index int) int {
 func (p *PsUnpacker) parseAvStream(code int, rtpts uint32, rb []byte, index int) int {
 	i := index
 
+	if len(rb)-i < 2 {
+		return -1
+	}
+
 	// 注意，由于length是两字节，所以存在一个帧分成多个pes包的情况
 	length := int(bele.BeUint16(rb[i:]))
 	if length == 65535 {
@@ -357,8 +365,24 @@ func (p *PsUnpacker) parseAvStream(code int, rtpts uint32, rb []byte, index int)
 		return -1
 	}
 
+	// 对端数据不可信：pes包必须容纳下固定头、可选头以及可选头中声明的pts、dts，否则跳过这个pes包
+	if length < 3 {
+		nazalog.Warnf("invalid pes packet, skip. code=%d, length=%d", code, length)
+		return 2 + length
+	}
 	ptsDtsFlag := rb[i+1] >> 6
 	phdl := int(rb[i+2]) // pes header data length
+	ptsDtsLen := 0
+	if ptsDtsFlag&0x2 != 0 {
+		ptsDtsLen += 5
+	}
+	if ptsDtsFlag&0x1 != 0 {
+		ptsDtsLen += 5
+	}
+	if 3+phdl > length || ptsDtsLen > phdl {
+		nazalog.Warnf("invalid pes packet, skip. code=%d, length=%d, phdl=%d, ptsDtsFlag=%d", code, length, phdl, ptsDtsFlag)
+		return 2 + length
+	}
 	i += 3
 
 	var pts int64 = -1
@@ -554,6 +578,11 @@ func (p *PsUnpacker) onAvPacketWrap(packet *base.AvPacket) {
 	p.onAvPacketWrapCount++
 	//nazalog.Debugf("PsUnpacker > onAvPacketWrap. packet=%s", packet.DebugString())
 	if packet.IsVideo() {
+		if len(packet.Payload) < 5 {
+			// 只有start code或者数据不足一个nalu头，丢弃
+			nazalog.Warnf("video nalu too short, drop. len=%d", len(packet.Payload))
+			return
+		}
 		typ := h2645.ParseNaluType(packet.PayloadType == base.AvPacketPtAvc, packet.Payload[4])
 		//nazalog.Debugf("PsUnpacker onAvPacketWrap. type=%d", typ)
 		// TODO(chef): [opt] 等待sps等信息再开始回调，这个逻辑不完整简化了 202209
